@@ -147,7 +147,11 @@ def run(ctx, rep):
                 if imm["lo"] <= v <= imm["hi"]:
                     first = p.items[0]
                     if first[0] == "imm":
-                        got = m.imm.get(v)
+                        try:
+                            from .. import brine_model as _B
+                            got = _B.imm_byte(ctx, first, val, A.params(fn.node)[0])
+                        except LookupError:
+                            got = ("lookup fails",)
                     else:
                         got = ("not immediate", tag)
                     want = bytes([v + imm["offset"]])
